@@ -956,7 +956,7 @@ func (m *Machine) headerBlockRules(e *Expect, id uint32, flags uint8, fields []h
 			}
 			if decoded {
 				if why := malformedFields(fields, true); why != "" {
-					e.Desc += "/malformed"
+					e.Desc += "/malformed:" + strings.SplitN(why, ":", 2)[0]
 					e.strm(id, ProtocolError, "§8.1.2 malformed trailers: "+why)
 				}
 			}
@@ -986,7 +986,7 @@ func (m *Machine) headerBlockRules(e *Expect, id uint32, flags uint8, fields []h
 	}
 	if decoded && !padBad {
 		if why := malformedFields(fields, false); why != "" {
-			e.Desc += "/malformed"
+			e.Desc += "/malformed:" + strings.SplitN(why, ":", 2)[0]
 			e.strm(id, ProtocolError, "§8.1.2.6 malformed request: "+why)
 			e.OwnResponse = true // "a server MAY send an HTTP response prior to closing or resetting the stream"
 			e.SilenceOK = true   // ... and that response may come later (it is checked for at the end of the history)
@@ -1000,25 +1000,25 @@ func malformedFields(fs []h2wire.HF, trailers bool) string {
 	pseudo := map[string]string{}
 	for _, f := range fs {
 		if f.Name == "" {
-			return "empty field name"
+			return "empty-name: empty field name"
 		}
 		if strings.ToLower(f.Name) != f.Name {
-			return "uppercase field name"
+			return "uppercase-name: field names must be lowercase (§8.1.2)"
 		}
 		if strings.HasPrefix(f.Name, ":") {
 			if trailers {
-				return "pseudo-header in trailers"
+				return "pseudo-in-trailers: pseudo-header field in trailers (§8.1.2.1)"
 			}
 			if seenRegular {
-				return "pseudo-header after regular field"
+				return "pseudo-after-regular: pseudo-header field after a regular field (§8.1.2.1)"
 			}
 			switch f.Name {
 			case ":method", ":scheme", ":path", ":authority":
 			default:
-				return "undefined or response pseudo-header " + f.Name
+				return "undefined-pseudo: undefined or response pseudo-header " + f.Name
 			}
 			if _, dup := pseudo[f.Name]; dup {
-				return "duplicate pseudo-header"
+				return "duplicate-pseudo: duplicate pseudo-header (§8.1.2.3)"
 			}
 			pseudo[f.Name] = f.Value
 			continue
@@ -1026,10 +1026,10 @@ func malformedFields(fs []h2wire.HF, trailers bool) string {
 		seenRegular = true
 		switch f.Name {
 		case "connection", "keep-alive", "proxy-connection", "transfer-encoding", "upgrade":
-			return "connection-specific field " + f.Name
+			return "connection-specific: connection-specific field " + f.Name + " (§8.1.2.2)"
 		case "te":
 			if f.Value != "trailers" {
-				return "te other than trailers"
+				return "connection-specific: te other than trailers (§8.1.2.2)"
 			}
 		}
 	}
@@ -1038,12 +1038,12 @@ func malformedFields(fs []h2wire.HF, trailers bool) string {
 	}
 	if pseudo[":method"] == "CONNECT" {
 		if pseudo[":authority"] == "" || pseudo[":path"] != "" || pseudo[":scheme"] != "" {
-			return "malformed CONNECT"
+			return "bad-connect: malformed CONNECT (§8.3)"
 		}
 		return ""
 	}
 	if pseudo[":method"] == "" || pseudo[":scheme"] == "" || pseudo[":path"] == "" {
-		return "missing :method, :scheme or :path"
+		return "missing-pseudo: missing :method, :scheme or :path (§8.1.2.3)"
 	}
 	return ""
 }
@@ -1166,7 +1166,7 @@ func (m *Machine) Server(out []h2wire.Frame, started []Start) []Violation {
 				s.OwnResp = false
 				why := "srv-rst(" + code.String() + ")"
 				if e != nil && !e.dead && f.Stream == e.Stream {
-					why += " answering " + strings.SplitN(strings.SplitN(e.Desc, "/", 2)[0], ":", 2)[0]
+					why += " answering " + e.Desc
 				}
 				m.close(s, why)
 			}
